@@ -1,19 +1,20 @@
-(* The generated OMEN level code (gen/OmenLevel_gen.v: the translation
-   of the Python text of find_omen_level
-   and OmenScorer.parse, redone on every run) equals the hand-written models of
-   OmenLevel.v that the theorems of C11 are about (the keyspace functions: OmenKeyspaceGenProofs.v).
+(* The generated OMEN level code (gen/OmenLevel_gen.v: the translation of the Python
+   text of find_omen_level and OmenScorer.parse, redone on every run) equals the
+   hand-written models of OmenLevel.v that the theorems of C11 are about
+   (the keyspace functions of C18: OmenKeyspaceGenProofs.v).
 
    The equalities are stated for all inputs, under boolean well-formedness
-   predicates on the tables ([lvl_wfb], [wf_scorerb], [closedb]) that say where
-   Python would raise something else than the KeyError the code catches (an
-   IndexError of ln_lookup, a negative slice bound) and that the loaders' outputs
-   satisfy ([wf_ttabb_lvl_wfb], [load_s_wf_scorerb]); and for every fuel above
-   the length of the password / of the length table (fuel has no counterpart in
-   Python: it bounds the while loops and the recursion).
+   predicates on the tables ([lvl_wfb], [wf_scorerb]) that say where Python would
+   do something else than raise the KeyError the code catches (an IndexError of
+   ln_lookup, a slice bound that turns negative) and that the tables of the C11
+   theorems and the loader's output satisfy ([wf_ttab_lvl_wfb], [wf_ttabb_lvl_wfb],
+   [load_s_wf_scorerb]); and for every fuel above the length of the password
+   (fuel has no counterpart in Python: it bounds the while loop).
 
    These proofs are meant to break when one of the Python functions changes its
-   meaning: the loop lemmas take the translated loop test and body as they are
-   generated and compare them with the steps of the model. *)
+   meaning: the loop lemma takes the translated loop test and body as they are
+   generated (matched from the goal, so that renamed locals or an introduced
+   temporary do not matter) and compares them with the steps of the model. *)
 From Coq Require Import List Arith Bool NArith ZArith Lia.
 From Pcfg Require Import KernelRt OmenSpec OmenLevel OmenRt OmenRtProofs OmenLevelProofs.
 From PcfgGen Require Import OmenLevel_gen.
